@@ -29,7 +29,9 @@ def check_series_has_expected_type(series: pd.Series, internal_type: np.dtype) -
     if (internal_type == float) & (is_float_dtype(series)):
         out = True
     elif (internal_type == int) & (is_integer_dtype(series)):
-        out = True
+        # Narrow or unsigned integers are converted to int64: identifiers are multiplied
+        # by 100 to build derived identifiers, which overflows e.g. int8.
+        out = series.dtype == numpy.int64
     elif (internal_type == bool) & (is_bool_dtype(series)):
         out = True
     elif (internal_type == numpy.datetime64) & (is_datetime64_any_dtype(series)):
